@@ -42,6 +42,9 @@ def cases(tier, seed):
                 continue
             ops = [r.choice(OPS) for _ in range(r.randint(0, 4))]
             cs.append({'primary': p, 'sub': s, 'ops': ops, 'derive_at': 0, 'h': 1000 + j, 'mode': ['held', 'accessor'][(si + j) % 2], 'foreign': style})
+    # RSA keys written under the deprecated identifiers (2 = encrypt only, 3 = sign only)
+    for j, (p, s, pa, sa) in enumerate((('ed25519_0', 'rsa1024_1', None, 2), ('rsa1024_0', 'rsa1024_1', 3, 2), ('rsa2048_0', 'rsa1024_1', 3, None), ('ecdsa_p256_0', 'rsa2048_1', None, 2))):
+        cs.append({'primary': p, 'sub': s, 'ops': [r.choice(OPS) for _ in range(j)], 'derive_at': 0, 'h': 2000 + j, 'mode': ['held', 'accessor'][j % 2], 'foreign': 'plain', 'primary_alg': pa, 'sub_alg': sa})
     return cs
 
 
@@ -133,7 +136,7 @@ def run_case(ctx, d):
         names = [d['primary']] + ([d['sub']] if d['sub'] else [])
         must_keep = []
         if d.get('foreign'):
-            fblob, finfo = foreignkey.build(d['primary'], d['sub'], d['foreign'], extra_uid=b'Second Identity <second@example.org>')
+            fblob, finfo = foreignkey.build(d['primary'], d['sub'], d['foreign'], extra_uid=b'Second Identity <second@example.org>', primary_alg=d.get('primary_alg'), sub_alg=d.get('sub_alg'))
             k, _ = pgpy.PGPKey.from_blob(fblob)
             # the first identity's self-certification and the subkey binding are never removed by the operations below
             must_keep = [finfo['sig_bodies'][0]] + ([finfo['sig_bodies'][-1]] if d['sub'] else [])
